@@ -34,6 +34,10 @@ class IntegerData(NumericData):
         if np.any(np.modf(values)[0] != 0):
             raise TypeError("Values cannot have decimal points.")
 
+        info = np.iinfo(np.int32)
+        if np.any(values < info.min) or np.any(values > info.max):
+            raise ValueError("Values must be within the range of 32-bit integers.")
+
         return values.astype(np.int32)
 
     @classmethod
